@@ -331,7 +331,7 @@ func parent(d *Driver, tier string) int {
 			case err := <-done:
 				if err != nil {
 					tail := tailFile(logf.Name(), 3000)
-					fails[i] = fmt.Sprintf("worker %d: %v\n%s", i, err, tail)
+					fails[i] = fmt.Sprintf("worker %d: %v\n%s%s", i, err, causeLines(logf.Name()), tail)
 				}
 			case <-time.After(hard):
 				cmd.Process.Kill()
@@ -586,4 +586,28 @@ func Scratch() string {
 func JS(v any) string {
 	b, _ := json.Marshal(v)
 	return string(b)
+}
+
+
+// causeLines extracts the lines of a dead worker's log that say why it died (the tail is usually the
+// middle of a goroutine dump).
+func causeLines(path string) string {
+	b, err := os.ReadFile(path)
+	if err != nil {
+		return ""
+	}
+	var out []string
+	for _, l := range strings.Split(string(b), "\n") {
+		if strings.HasPrefix(l, "fatal error:") || strings.HasPrefix(l, "panic:") || strings.HasPrefix(l, "race:") ||
+			strings.Contains(l, "dying") || strings.HasPrefix(l, "runtime: ") || strings.HasPrefix(l, "signal: ") || strings.HasPrefix(l, "SIG") {
+			out = append(out, "CAUSE: "+l)
+			if len(out) >= 8 {
+				break
+			}
+		}
+	}
+	if len(out) == 0 {
+		return ""
+	}
+	return strings.Join(out, "\n") + "\n"
 }
